@@ -310,4 +310,8 @@ Fixpoint run_net (maxiter fuel : nat) (s : net) (ops : list netop) : list Z :=
       | Some (s', out) => out ++ enc_net s' ++ run_net maxiter fuel s' r
       end
   end.
+(* the hypothesis of the network ledger theorems (NetLaws.wf, via net_wfb_sound) evaluated on the very network the
+   implementation built: first integer of the output *)
+Definition run_net_checked (maxiter fuel : nat) (s : net) (ops : list netop) : list Z :=
+  encb (net_wfb s) ++ run_net maxiter fuel s ops.
 End Dim.
